@@ -587,6 +587,31 @@ CHECKS = {
                 "a batch in which one action cancels the next).",
         "technique": "monitor contracts (rely/guarantee with a ghost runner token) and loop cuts by symbolic execution of the real class, SMT; native scenario replay",
     },
+    "C38": {
+        "text": "Loop contracts on the real marble parser, checked for ONE ARBITRARY round of the token loop from an arbitrary state "
+                "(frame counter, stopped latch), the strings being opaque values with a symbolic length and symbolic answers to "
+                "== '|' / '#' / '', int() and float(): every message of the round is stamped iframe * timespan + time_shift (the frame of "
+                "the character that starts the token; the opening parenthesis for grouped values); the frame counter grows by exactly the "
+                "length of the token's text (a group with its parentheses, a run of dashes, every character of a multi-character value) - "
+                "so 'iframe = index of the next character, spaces not counted' is an invariant; '|' gives OnCompleted, '#' OnError(the given "
+                "error, else Exception('error')), anything else OnNext(v) with v the text read as int if it parses as one, else as float, "
+                "else the text, replaced by lookup[v] iff v is a key - whatever the looked-up value is; a group gives one message per "
+                "non-empty element in order; a comma outside a group raises ValueError; with raise_stopped a marble after a terminal one - "
+                "also inside a group - raises ValueError before anything is emitted for it, a terminal marble latches, without it nothing "
+                "is rejected. from_marbles: one schedule_relative(time, action) per parsed message kept in the returned composite, the "
+                "action delivers exactly its notification; hot: the same at creation with the due time as parse's time_shift, delivery to "
+                "every current subscriber under the lock, no new subscribers after the terminal marble.",
+        "note": "ASSUMED and cross-checked on every run (bounded): the tokeniser's contract - Python's re.findall with the module's pattern "
+                "tiles a string of the documented syntax (balanced, non-nested groups) into group / dashes / comma / element tokens in "
+                "order; str.replace / split / slicing / int() / float() through their documented meaning. 'An arbitrary element stands for "
+                "each element of a group' relies on the comprehension / for-loop applying the same code to every element (structural "
+                "obligations on the AST). marblerun.py compares the real parse with a character-by-character scanner written from the "
+                "documentation on EVERY documented string up to 4 (quick) / 5 (thorough) characters over {-, a, b, 1, ., |, #, (, ), ',', "
+                "space} x lookup x raise_stopped (53 k / 600 k cases), and runs from_marbles, hot and the testing context (cold, hot, exp) on "
+                "a TestScheduler; a disagreement with a passing proof is a checker crash. Strings with unbalanced or nested parentheses "
+                "are outside the documented syntax and not covered.",
+        "technique": "loop contracts (one arbitrary iteration from an arbitrary state) by symbolic execution of the real parser against an assumed tokeniser contract, SMT; exhaustive small-scope native cross-check of that contract",
+    },
     "C41": {
         "text": "Function and closure contracts on the real bridges, each executed symbolically against contracts of Future and Event. "
                 "from_future_: subscribe registers exactly one done-callback and emits nothing itself; that callback emits the result "
